@@ -311,7 +311,11 @@ func c09Anchors(n syntax.Node) []c09Anchor {
 		}
 	case *syntax.WordIter:
 		if n.InPos.IsValid() {
-			add("InPos", n.InPos, "in")
+			if len(n.Items) == 0 {
+				cl("InPos", n.InPos, "in") // `for x in; do`: the node ends with `in`
+			} else {
+				add("InPos", n.InPos, "in")
+			}
 		}
 	case *syntax.CStyleLoop:
 		add("Lparen", n.Lparen, "((")
@@ -787,6 +791,14 @@ func (t *c09Tree) judge(strict bool) (string, []string) {
 				continue
 			}
 			cn.toks = append(cn.toks, [2]int{off, end - off})
+			if off < int(cn.pos.Offset()) || end > int(cn.end.Offset()) {
+				// a node's own token lies within the node (a local fact of local_to_global)
+				region := ""
+				if end-off != wantLen {
+					region = "K4" // the token's source text holds dropped bytes, End() = start + len(token)
+				}
+				reportG(region, []int{off, end}, "%s.%s: the token %q at [%d,%d) lies outside the node [%d,%d)", cn.Type, a.field, a.want[0], off, end, cn.pos.Offset(), cn.end.Offset())
+			}
 			if a.closing && int(cn.end.Offset()) != end {
 				region := ""
 				if end-off != wantLen && int(cn.end.Offset()) == off+wantLen {
